@@ -58,6 +58,38 @@ def permute_chunks(data, perm):
     return data[:CHUNK0] + b"".join(chunks[k] for k in perm) + data[CHUNK0 + n * CHUNK:]
 
 
+def first_records(data, k):
+    """a small log: the file header and the first chunk cut down to its first k records (the unused space zeroed, the
+    chunk header's record numbers / last-record and free-space offsets set accordingly, string- and template-table slots
+    that pointed beyond the cut cleared); checksums recomputed. Rarely written channels look like this: a handful of
+    records in one mostly empty 64 KiB chunk, which compresses to a few KiB."""
+    one = bytearray(data[:CHUNK0 + CHUNK])
+    off = CHUNK0
+    p = off + 512
+    last = p
+    n = 0
+    for _ in range(k):
+        if p + 24 > off + CHUNK or bytes(one[p:p + 4]) != b"\x2a\x2a\x00\x00":
+            break
+        last = p
+        p += struct.unpack_from("<I", one, p + 4)[0]
+        n += 1
+    cut = p - off
+    one[off + cut:off + CHUNK] = bytes(CHUNK - cut)
+    struct.pack_into("<QQQQ", one, off + 8, 1, n, 1, n)
+    struct.pack_into("<II", one, off + 44, last - off, cut)
+    for base, cnt in ((128, 64), (384, 32)):
+        for j in range(cnt):
+            if struct.unpack_from("<I", one, off + base + 4 * j)[0] >= cut:
+                struct.pack_into("<I", one, off + base + 4 * j, 0)
+    # file header: one chunk, next record number; header checksum over the first 120 bytes
+    struct.pack_into("<QQQ", one, 8, 0, 0, n + 1)
+    struct.pack_into("<H", one, 42, 1)
+    struct.pack_into("<I", one, 124, zlib.crc32(bytes(one[:120])) & 0xFFFFFFFF)
+    fix_checksums(one)
+    return bytes(one), n
+
+
 def ns_to_filetime(ns):
     return ns // 100 + EPOCH_DIFF_100NS
 
